@@ -22,7 +22,7 @@ use rand::{rngs::StdRng, seq::SliceRandom, Rng, SeedableRng};
 use serde::Deserialize;
 use serde_json::{json, Value};
 use shredh::{
-    worldx::{panic_why, AnyGuard, CallSpec, Driver, GEntry, SendEntry, ShapeM, NCONC},
+    worldx::{panic_why, CallSpec, Driver, GEntry, SendEntry, ShapeM, NCONC},
     Args,
 };
 
@@ -110,7 +110,7 @@ fn replay(a: &Args) {
         for v in 0..variants {
             let (tys, dyns) = variant(&mut rng, nt, nd, v == 0);
             let mut d = Driver::new(tys.clone(), dyns.clone());
-            let mut evs = vec![json!({"ev":"reset","src":"replay","behaviour":behaviours,"variant":v,"tymap":tys,"dynmap":dyns.iter().map(|x| x.to_string()).collect::<Vec<_>>()})];
+            let mut evs = vec![json!({"ev":"reset","src":"replay","nbeh":behaviours,"variant":v,"tymap":tys,"xdyn":dyns.iter().map(|x| x.to_string()).collect::<Vec<_>>()})];
             let mut ok = true;
             runs += 1;
             for st in &hist {
@@ -255,7 +255,7 @@ fn random(a: &Args) {
     for b in 0..blocks {
         let (tys, dyns) = variant(&mut rng, nt, nd, b == 0);
         let mut d = Driver::new(tys.clone(), dyns.clone());
-        let mut evs = vec![json!({"ev":"reset","src":"random","block":b,"tymap":tys,"dynmap":dyns.iter().map(|x| x.to_string()).collect::<Vec<_>>()})];
+        let mut evs = vec![json!({"ev":"reset","src":"random","nblock":b,"tymap":tys,"xdyn":dyns.iter().map(|x| x.to_string()).collect::<Vec<_>>()})];
         let mut mode = 0u8;
         for _ in 0..len {
             let c = rand_call(&mut rng, &d, &mut mode);
@@ -304,18 +304,19 @@ fn threads(a: &Args) {
     let maxthreads: usize = a.num("maxthreads", 8);
     let mut rng = StdRng::seed_from_u64(seed);
     let mut w = BufWriter::new(File::create(out).unwrap());
-    let (mut tcalls, mut syncs, mut aborted) = (0usize, 0usize, 0usize);
+    let (mut tcalls, mut syncs, mut aborted, mut max_pending, mut overlapped) = (0usize, 0usize, 0usize, 0usize, 0usize);
     let mut outcomes = std::collections::BTreeMap::<String, usize>::new();
     let mut thread_counts = Vec::new();
     let mut samples = Vec::new();
     for b in 0..blocks {
         let (tys, dyns) = variant(&mut rng, nt, nd, b == 0);
         let mut d = Driver::new(tys.clone(), dyns.clone());
-        let mut evs = vec![json!({"ev":"reset","src":"threads","block":b,"tymap":tys,"dynmap":dyns.iter().map(|x| x.to_string()).collect::<Vec<_>>()})];
+        let mut evs = vec![json!({"ev":"reset","src":"threads","nblock":b,"tymap":tys,"xdyn":dyns.iter().map(|x| x.to_string()).collect::<Vec<_>>()})];
         // populate (single-threaded, fully observed); one id stays absent so that None occurs
+        let absent = (rng.gen_range(1..=nt as u32), rng.gen_range(0..nd as u32));
         for ty in 1..=nt as u32 {
             for dy in 0..nd as u32 {
-                if ty == nt as u32 && dy == nd as u32 - 1 && nd > 1 {
+                if (ty, dy) == absent {
                     continue;
                 }
                 evs.push(d.do_call(&CallSpec { op: "insert_by_id".into(), targ: ty, ty, dy, p: rng.gen_range(1..100), ..Default::default() }));
@@ -336,15 +337,19 @@ fn threads(a: &Args) {
             let world = d.w();
             let seeds: Vec<u64> = (0..k).map(|_| rng.gen()).collect();
             let dref = &d;
+            let start = std::sync::Barrier::new(k);
             let back: Vec<Vec<(u32, SendEntry)>> = std::thread::scope(|s| {
                 let hs: Vec<_> = held
                     .into_iter()
                     .enumerate()
                     .map(|(t, mine)| {
-                        let (log, gid, seed) = (&log, &gid, seeds[t]);
+                        let (log, gid, seed, start) = (&log, &gid, seeds[t], &start);
                         let rids: Vec<Vec<shred::ResourceId>> = (1..=nt as u32).map(|ty| (0..nd as u32).map(|dy| dref.rid(ty, dy)).collect()).collect();
                         let cis: Vec<usize> = (1..=nt as u32).map(|ty| dref.ci(ty)).collect();
-                        s.spawn(move || thread_body(t as u32 + 1, world, mine, log, gid, seed, nops, rids, cis))
+                        s.spawn(move || {
+                            start.wait();
+                            thread_body(t as u32 + 1, world, mine, log, gid, seed, nops, rids, cis)
+                        })
                     })
                     .collect();
                 hs.into_iter().map(|h| h.join().expect("harness thread")).collect()
@@ -355,8 +360,17 @@ fn threads(a: &Args) {
                 }
             }
             let mut l = log.0.into_inner().unwrap();
+            let mut pend = 0usize;
             for e in &l {
+                if e["ev"] == "tcall" {
+                    pend += 1;
+                    max_pending = max_pending.max(pend);
+                    if pend > 1 {
+                        overlapped += 1;
+                    }
+                }
                 if e["ev"] == "tret" {
+                    pend -= 1;
                     tcalls += 1;
                     *outcomes.entry(format!("{}{}{}", e["k"].as_str().unwrap(), if e["why"] == "" { "" } else { ":" }, e["why"].as_str().unwrap())).or_default() += 1;
                 }
@@ -388,7 +402,7 @@ fn threads(a: &Args) {
     w.flush().unwrap();
     println!(
         "{}",
-        json!({"blocks":blocks,"thread_calls":tcalls,"syncs":syncs,"aborted_blocks":aborted,"threads_per_block":thread_counts,
+        json!({"blocks":blocks,"thread_calls":tcalls,"syncs":syncs,"aborted_blocks":aborted,"threads_per_block":thread_counts,"max_pending_calls":max_pending,"calls_overlapping_another":overlapped,
                "outcomes":outcomes,"samples":samples})
     );
 }
